@@ -112,7 +112,17 @@ TopLevelCases == {[content |-> << ChoiceO(mn, mx, br) >>, attrs |-> at, order |-
                     mn \in Mins, mx \in Maxs, br \in TopBranches, o \in {"before", "after"},
                     at \in {<<>>, << [k |-> "attr", n |-> "subjectAttr", ty |-> B("string"), use |-> "req"] >>}}
 
+\* Slice "homonym": OtherType exists in the near AND in the imported namespace (different members); the focus type
+\* extends one of them and has a member typed by one of them; the near namespace is optionally the default namespace
+\* and then referred to without a prefix
+FarOther == [k |-> "complex", n |-> "OtherType", base |-> None,
+             content |-> << SeqP(1, "1", << El("farValue", B("string"), 1, "1") >>) >>, attrs |-> <<>>]
+HomonymCases == {[content |-> << SeqP(1, "1", << El("subjectMember", T(pm, "OtherType"), 0, "1"), Tail1 >>) >>, attrs |-> <<>>, order |-> o,
+                  base |-> T(pb, "OtherType"), dflt |-> TRUE, farother |-> TRUE] :
+                    pm \in {"t", "o", ""}, pb \in {"t", "o", ""}, o \in {"before", "after"}}
+
 Space == CASE Slice = "builtins" -> BuiltinCases
+           [] Slice = "homonym" -> HomonymCases
            [] Slice = "toplevel" -> TopLevelCases
            [] Slice = "recursive" -> RecursiveCases
            [] Slice = "positions_all" -> PositionAllCases
@@ -128,15 +138,17 @@ Helpers == << [k |-> "complex", n |-> "OtherType", base |-> None,
                content |-> << SeqP(1, "1", << El("otherValue", B("string"), 1, "1") >>) >>, attrs |-> <<>>],
               [k |-> "simple", n |-> "CodeType", base |-> B("string"), facets |-> << <<"maxLen", 8>> >>],
               [k |-> "element", n |-> "GlobalThing", inline |-> [content |-> << SeqP(1, "1", << El("thingValue", B("int"), 1, "1") >>) >>, attrs |-> <<>>]] >>
-Focus(x) == [k |-> "complex", n |-> "FocusType", base |-> None, content |-> x.content, attrs |-> x.attrs]
-File1(x) == [name |-> "f1.xsd", kind |-> "xsd", tns |-> "Unear", xmlns |-> << <<"t", "Unear">>, <<"o", "Ufar">> >>,
+Focus(x) == [k |-> "complex", n |-> "FocusType", base |-> IF "base" \in DOMAIN x THEN x.base ELSE None, content |-> x.content, attrs |-> x.attrs]
+File1(x) == [name |-> "f1.xsd", kind |-> "xsd", tns |-> "Unear",
+             xmlns |-> << <<"t", "Unear">>, <<"o", "Ufar">> >> \o (IF "dflt" \in DOMAIN x THEN << <<"", "Unear">> >> ELSE <<>>),
              items |-> << [k |-> "import", ns |-> "Ufar", loc |-> "f2.xsd"] >>
                        \o (IF "items" \in DOMAIN x THEN x.items
                            ELSE IF x.order = "before" THEN Helpers \o <<Focus(x)>> ELSE <<Focus(x)>> \o Helpers)]
-File2 == [name |-> "f2.xsd", kind |-> "xsd", tns |-> "Ufar", xmlns |-> << <<"o", "Ufar">> >>,
-          items |-> << [k |-> "complex", n |-> "FarType", base |-> None,
-                        content |-> << SeqP(1, "1", << El("farValue", B("string"), 1, "1") >>) >>, attrs |-> <<>>] >>]
-SetOf(x) == [files |-> <<File1(x), File2>>, start |-> "f1.xsd"]
+File2(x) == [name |-> "f2.xsd", kind |-> "xsd", tns |-> "Ufar", xmlns |-> << <<"o", "Ufar">> >>,
+             items |-> << [k |-> "complex", n |-> "FarType", base |-> None,
+                           content |-> << SeqP(1, "1", << El("farValue", B("string"), 1, "1") >>) >>, attrs |-> <<>>] >>
+                       \o (IF "farother" \in DOMAIN x THEN <<FarOther>> ELSE <<>>)]
+SetOf(x) == [files |-> <<File1(x), File2(x)>>, start |-> "f1.xsd"]
 
 MCInit == c \in Space
 MCSpec == MCInit /\ [][UNCHANGED c]_vars
